@@ -41,7 +41,7 @@ def run(sd, props):
     except Exception:
         ex = {}
     props = [p for p in props if p not in ex]
-    res = S.run_checks(sd, props)
+    res = S.run_checks(sd, props, scale=os.environ.get("VERIF_BENIGN_SCALE"))
     alarms = [p for p in res if res[p]["rc"] == 1]
     broken = [p for p in res if res[p]["rc"] not in (0, 1)]
     return res, alarms, broken
